@@ -186,8 +186,8 @@ let c17 toks =
             Ev (PsEvRaw (ps_res_deleted fuel c.psc_dyn c.psc_cnt (bytes_of_tok nm))) :: parse_ev tl
         | _ -> failwith "bad event" in
       let events = parse_ev evtoks in
-      let show_sends (l : ((z list * z list) * z) list) (stamp : int) (ev : int) =
-        List.map (fun ((tu, tok), v) ->
+      let show_sends (l : (((z list * z list) * z list) * z) list) (stamp : int) (ev : int) =
+        List.map (fun (((_, tu), tok), v) ->
             (stamp, Printf.sprintf "%d/%s/%d@%d#%d" (client_of tu) (hex_full tok) (int_of_z v) stamp ev)) l in
       (* one process: startup, then events one at a time (to stamp the sends) *)
       let res_line (r : ps_rsrc) =
